@@ -266,9 +266,11 @@ def make_replay(pid, v, repo, here, known_entry=None, seed=0):
             vals = [bytes(c).hex() for c in conc]
             rec['counterexample'] = dict(schema='raw bytes of each kani::any() in harness order', values=vals)
             if build_replay(here) == 0:
-                r = run_replay(here, v['replay_family'], vals)
+                fam_ = v['replay_family']
+                args_ = [] if fam_.startswith('enum:') else vals
+                r = run_replay(here, fam_, args_, timeout=120)
                 rec['observed_on_real_code'] = r
-                rec['replay_cmd'] = f'{replay_bin(here)} {v["replay_family"]} ' + ' '.join(vals)
+                rec['replay_cmd'] = f'{replay_bin(here)} {fam_} ' + ' '.join(args_)
                 if r['outcome'] in ('property-violated', 'panic', 'hang', 'crash'):
                     rec['failing_input_found'] = True
                 else:
